@@ -188,6 +188,19 @@ def features(case, impl):
     return f
 
 
+def op_hist(results):
+    """distribution of (operation kind, outcome) over the implementation's runs: a kind whose calls are all PANIC / NOOP
+    is not being compared"""
+    h = {}
+    for r in results:
+        for l in r.get("impl", []):
+            p = l.split()
+            if p and p[0] == "TOP" and len(p) > 3:
+                k = "%s->%s" % (p[2], p[-1])
+                h[k] = h.get(k, 0) + 1
+    return h
+
+
 def main(tier, seed):
     t0 = time.time()
     proof = lib.check_property_file(PID)
@@ -236,7 +249,8 @@ def main(tier, seed):
                            strip_model_prefixes=("TINV ", "ICHK "),
                            what="Transition after each rotation-cycle operation: cycles, counters, totals, successor, "
                                 "lookup table and empty-cycle list (hook); TInv on model and implementation states",
-                           extra_cov={"pipeline_runs": len(pres), "pipeline_transitions_checked": pipeline_transitions,
+                           extra_cov={"operation_outcomes": op_hist(results),
+                                      "pipeline_runs": len(pres), "pipeline_transitions_checked": pipeline_transitions,
                                       "pipeline_failures": len(extra_bad)},
                            check_pair=check_pair, extra_violations=extra_bad)
     return rc
